@@ -324,3 +324,30 @@ def _(v):
     for i in range(3):
         q = q * SP.spow(x[i], nus[i])
     v.prove_identity("quotient_equals_constant", seen["res"], K - q)
+
+
+@harness("C08", "dissolved.unequal_coefficients", functions=[EQ + ":EqSystem.dissolved", "chempy.chemistry:Reaction.precipitate_stoich"], kind="shape-bounded", div_mode="assume", samples=0)
+def _(v):
+    """a salt whose ions have different coefficients (CaF2 = Ca+2 + 2 F-, written in either direction): dissolving all of the solid adds ONE calcium
+    and TWO fluoride per formula unit; element and charge totals are kept"""
+    from chempy.chemistry import Equilibrium, Species
+    from chempy.equilibria import EqSystem
+    from collections import OrderedDict
+    which = v.choice("solid_is_reactant", [True, False])
+    subs = OrderedDict((k, Species.from_formula(k)) for k in ["F-", "CaF2(s)", "Ca+2"])
+    eq = Equilibrium({"CaF2(s)": 1}, {"Ca+2": 1, "F-": 2}, 3.9e-11) if which else Equilibrium({"Ca+2": 1, "F-": 2}, {"CaF2(s)": 1}, 1 / 3.9e-11)
+    es = EqSystem([eq], subs)
+    c = [v.real("c%d" % i, lo=0, hi=10) for i in range(3)]       # F-, CaF2(s), Ca+2
+    d = v.call(es.dissolved, _arr(c))
+    v.prove("solid_entry_becomes_zero", d[1] == 0)
+    v.prove("one_calcium_two_fluoride_per_formula_unit", SP.conj([d[2] == c[2] + c[1], d[0] == c[0] + 2 * c[1]]))
+    hand = {"charge": [-1, 0, 2], "F": [1, 2, 0], "Ca": [0, 1, 1]}
+    v.prove("element_and_charge_totals_kept", SP.conj([sum(w * x for w, x in zip(row, d)) == sum(w * x for w, x in zip(row, c)) for row in hand.values()]))
+    fw = es._fw_cond_factory(0)
+    ion_product = (c[2] + c[1]) * (c[0] + 2 * c[1]) * (c[0] + 2 * c[1])
+    v.assume(SP.conj([ion_product > 0]))
+    r = v.call(fw, _arr(c), None)
+    if which:
+        v.prove("precipitates_iff_ion_product_of_the_dissolved_state_exceeds_Ksp", SP.iff(r, ion_product > 3.9e-11 * (1 + 1e-14)))
+    else:
+        v.prove("precipitates_iff_ion_product_of_the_dissolved_state_exceeds_Ksp", SP.iff(r, (1 / ion_product) * (1 + 1e-14) < 1 / 3.9e-11))
